@@ -10,6 +10,7 @@
 //                         (in this pass or, if none fires now, whenever it fires later - also during settle)
 //        {"o":"hook","w":"recv|complete|close","in":[ops],"times":T}   the same for the next T callbacks of kind w
 //                         (e.g. chunked streaming: on every send-complete, send the next chunk)
+//        {"o":"shrinks"} {"o":"shrinkr"}  shrinkSendBuffer() / shrinkRecvBuffer()      {"o":"bind"} {"o":"unbind"}  forward to a recording ByteStream
 //        {"o":"settle"}   let the loop run and the peer read until nothing moves any more
 // The object under test lives on a real event loop which is driven pass by pass from inside (a runNext task that
 // executes script ops up to the next "pass" and re-posts itself), so nothing depends on wall-clock time.
@@ -153,6 +154,20 @@ static void run_in_ops(const char *kind) {
     for (auto &o : ops) exec_op(o, true);
 }
 
+// ---- a bound receiver: a second ByteStream whose send() records what is forwarded to it ------------------------------
+struct Recorder : public ByteStream {
+    void setReceiveCallback(const ReceiveCallback &, size_t) override {}
+    void setSendCompleteCallback(const SendCompleteCallback &) override {}
+    bool send(const void *p, size_t n) override {
+        ev("{\"e\":\"Fwd\",\"len\":" + std::to_string(n) + ",\"runs\":" + runs_of((const uint8_t *)p, n) + "}");
+        return true;
+    }
+    void bind(ByteStream *) override {}
+    void unbind() override {}
+    Buffer *getReceiveBuffer() override { return nullptr; }
+};
+static Recorder g_recorder;
+
 // ---- user callbacks -------------------------------------------------------------------------------------------
 static bool g_settling = false;
 static void on_recv(Buffer &b) {
@@ -258,6 +273,24 @@ static void exec_op(const json &op, bool in_cb) {
         ev(std::string("{\"e\":\"Disconnect\",\"ret\":") + (r ? "true" : "false") + "}");
     } else if (o == "pread") peer_read(op["n"].get<long long>(), false);
     else if (o == "pwrite") peer_write(op["n"].get<long long>());
+    else if (o == "shrinks") {          // BufferedFd::shrinkSendBuffer(): no effect on the stream
+        if (X->tcp) return;
+        X->bw->shrinkSendBuffer(); ev("{\"e\":\"Shrink\",\"w\":\"send\"}");
+    } else if (o == "shrinkr") {        // shrinkRecvBuffer() / getReceiveBuffer()->shrink(): no effect on the stream
+        if (!X->tcp) X->br->shrinkRecvBuffer();
+        else {
+            Buffer *b = X->gone ? nullptr : X->server ? X->srv->getClientReceiveBuffer(X->tok) : X->cli->getReceiveBuffer();
+            if (!b) return;
+            b->shrink();
+        }
+        ev("{\"e\":\"Shrink\",\"w\":\"recv\"}");
+    } else if (o == "bind" || o == "unbind") {      // forwarding mode: received bytes go to the bound ByteStream
+        bool b = o == "bind";
+        if (!X->tcp) { if (b) X->br->bind(&g_recorder); else X->br->unbind(); }
+        else if (!X->server && !X->gone) { if (b) X->cli->bind(&g_recorder); else X->cli->unbind(); }
+        else return;                                // TcpServer has no bind()
+        ev(std::string("{\"e\":\"") + (b ? "Bind" : "Unbind") + "\"}");
+    }
     else if (o == "hook") { Hook h; h.in = op["in"]; h.times = op.value("times", 1); X->hooks[op["w"].get<std::string>()] = h; }
     else if (o == "pshut") peer_shut(1);
     else if (o == "pclose") peer_shut(2);
